@@ -145,6 +145,9 @@ func lblFunc(c *Ctx, name string) *ssa.Function {
 
 var c19Rule = "C19-K1"
 
+// c19StdEqual: ToBytes compares the name lists with slices.Equal (set by c19ToBytes, read by c19Same)
+var c19StdEqual bool
+
 func c19ToBytes(c *Ctx) {
 	r, sx := c.R, c.Sx()
 	var f *ssa.Function
@@ -164,11 +167,21 @@ func c19ToBytes(c *Ctx) {
 	var parse, sameCall *ssa.Call
 	allInstrs(f, func(in ssa.Instruction) {
 		if cl, ok := in.(*ssa.Call); ok && cl.Call.StaticCallee() != nil {
-			switch cl.Call.StaticCallee().Name() {
+			nm := cl.Call.StaticCallee().Name()
+			if o := cl.Call.StaticCallee().Origin(); o != nil {
+				nm = o.Name()
+			}
+			switch nm {
 			case "labelsFromBytes":
 				parse = cl
 			case "same":
 				sameCall = cl
+			case "Equal":
+				// slices.Equal: the standard-library form of the same exact, element-wise comparison
+				if o := cl.Call.StaticCallee().Origin(); o != nil && funcKey(o) == "slices.Equal" {
+					sameCall = cl
+					c19StdEqual = true
+				}
 			}
 		}
 	})
@@ -235,6 +248,10 @@ func c19Same(c *Ctx) {
 	r, sx := c.R, c.Sx()
 	f := lblFunc(c, "same")
 	if f == nil {
+		if c19StdEqual {
+			r.OK(c19Rule, "rfc1035label: names are compared with slices.Equal", "-", "exact element-wise comparison of the standard library", "")
+			return
+		}
 		r.Undecided(c19Rule, "rfc1035label.same", "-", "not found")
 		return
 	}
@@ -401,7 +418,7 @@ func c19Encoder(c *Ctx) {
 		switch {
 		case (strings.Contains(s, "conv[uint8](len(") || strings.Contains(s, "conv[byte](len(")) && inCycle(ap.Block()):
 			hasLen, lenApp = true, ap
-		case strings.Contains(s, "conv[[]byte](") && inCycle(ap.Block()):
+		case (strings.Contains(s, "conv[[]byte](") || isStringTyped(ap.Call.Args[1])) && inCycle(ap.Block()):
 			hasPart, partApp = true, ap
 		case !inCycle(ap.Block()):
 			// terminator: append(encoded, 0)
@@ -618,4 +635,10 @@ func hasShift(v ssa.Value, d int) bool {
 		return hasShift(t.X, d+1)
 	}
 	return false
+}
+
+// isStringTyped: append(b, s...) with s a string appends the same bytes as append(b, []byte(s)...)
+func isStringTyped(v ssa.Value) bool {
+	bt, ok := v.Type().Underlying().(*types.Basic)
+	return ok && bt.Info()&types.IsString != 0
 }
